@@ -264,7 +264,9 @@ def make_source(spec, b, scratch):
                 arrays[names[j]] = model.make_array(op['data'])
     keys = list(arrays)
     perm = opts.get('perm')
-    if perm == 'rev':
+    if opts.get('field_order'):
+        keys = [k for k in opts['field_order'] if k in arrays] + [k for k in keys if k not in opts['field_order']]
+    elif perm == 'rev':
         keys = keys[::-1]
     elif perm == 'rot' and keys:
         keys = keys[1:] + keys[:1]
